@@ -389,7 +389,8 @@ func (maddr *Multiaddr) UnmarshalJSON(data []byte) error {
 // MarshalBinary returs the bytes of the wrapped multiaddress.
 func (maddr Multiaddr) MarshalBinary() ([]byte, error) {
 	if maddr.Multiaddr == nil {
-		return nil, errors.New("cannot marshal a nil multiaddress")
+		// not a valid multiaddress: decoding it back is an error
+		return []byte{}, nil
 	}
 	return maddr.Multiaddr.MarshalBinary()
 }
